@@ -27,6 +27,7 @@ type CronStore struct {
 	mutators            mutator.MutatorStore
 	entries             map[serializable]*Entry
 	clock               mockable.Clock
+	isTimerStarted      bool
 }
 
 func NewCronStore(entries []*Entry) (*CronStore, error) {
@@ -203,6 +204,10 @@ func (c *CronStore) pushNext(t *wrappedTask) {
 }
 
 func (c *CronStore) resetTimer() {
+	if !c.isTimerStarted {
+		return
+	}
+
 	if !c.clock.Stop() {
 		select {
 		case <-c.clock.C():
@@ -223,12 +228,14 @@ func (c *CronStore) StartTimer(ctx context.Context) {
 	c.mu.Lock()
 	defer c.mu.Unlock()
 
+	c.isTimerStarted = true
 	c.resetTimer()
 }
 
 func (c *CronStore) StopTimer() {
 	c.mu.Lock()
 	defer c.mu.Unlock()
+	c.isTimerStarted = false
 	c.stopTimer()
 }
 
